@@ -145,7 +145,7 @@ PATHS = [p for n in range(0, 4) for p in itertools.product('ab', repeat=n)]
 
 @bounded('E3', targets=['kopf._cogs.structs.diffs.diff', 'kopf._cogs.structs.diffs.reduce',
                         'kopf._core.intents.handlers.ResourceHandler.adjust_cause'],
-         props=['C04', 'C15'],
+         props=['C04', 'C15', 'C03'],
          clauses=['apply_diff_yields_new', 'empty_iff_equivalent', 'items_exact', 'reduce_is_diff_of_resolved',
                   'reduce_applies', 'adjust_cause_exact', 'adjust_cause_frame', 'pure'],
          universe='pairs (a,b) of JSON values: all of depth<=1 over keys {a,b} and leaves {None,0,1,"","x",[],[0],{}} '
